@@ -611,7 +611,7 @@ def compare_parse(ctx, kind, label, text, real, mod, judge, quiet=False):
 
 def run_parse(ctx, texts, quiet=False):
     pops = [{"op": "acme_parse", "kind": k, "text_hex": hexs(t)} for k, _, t in texts]
-    reals = vlib.probe(pops, timeout=1200)
+    reals = vlib.probe(pops, timeout=1200, idle=90)
     mops = []
     for (k, _, t), r in zip(texts, reals):
         mops.append({"op": "acme_parse", "kind": k, "text_hex": hexs(t)})
@@ -708,7 +708,7 @@ def real_outcome(r):
 def run_answers(ctx, answers, retry_bound, quiet=False):
     ops = [{"op": "acme_classify", "method": m, "kind": k, "status": st, "ctype": ct, "body_hex": hexs(b)}
            for m, k, st, ct, b, _ in answers]
-    reals = vlib.probe(ops, timeout=1200)
+    reals = vlib.probe(ops, timeout=1200, idle=90)
     mops = []
     for o, r in zip(ops, reals):
         mops.append(o)
@@ -720,7 +720,8 @@ def run_answers(ctx, answers, retry_bound, quiet=False):
         robj = {"kind": "acmeobj", "what": "answer", "method": meth, "object": kind, "status": st, "ctype": ct, "body": body,
                 "label": lab, "real": r, "model": m}
         if r.get("died") or "panic" in r or "class" not in r:
-            ctx.violation("answering a %s with status %d (%s) crashes the client or the probe" % (meth, st, lab), robj)
+            ctx.violation("answering a %s with status %d (%s) %s" % (meth, st, lab, "makes the client go on for ever (no end of the step "
+                          "within 90 s; the retry bound is %s transmissions)" % retry_bound if r.get("hung") else "crashes the client or the probe"), robj)
             continue
         out = real_outcome(r)
         if not quiet:
@@ -769,7 +770,7 @@ def run_errtypes(ctx, table):
                      u.replace("acme:error", "acme:err")]
     urns += ["", "about:blank", "urn:ietf:params:acme:error:", "urn:ietf:params:acme:error:unknown", "é", "\x00"]
     ops = [{"op": "acme_errtype", "type_hex": hexs(u)} for u in urns]
-    reals = vlib.probe(ops)
+    reals = vlib.probe(ops, idle=90)
     mods = vlib.model(ops)
     for u, r, m in zip(urns, reals, mods):
         ctx.count("acmeobj:errtype:%s" % ("recoverable" if r.get("recoverable") else "other"))
